@@ -126,6 +126,7 @@ def run (c : Case) : CaseOut := Id.run do
         amap := JoinSpec.step (JoinSpec.keyEq nf) amap (.upsert k p)
         obs := obs ++ [[]]
       | _, _ => obs := obs ++ [[["bad-op"]]]
+    | "badups" :: _ => obs := obs ++ [[["rejected"]]]   -- a write to a table that is not registered: an error, no effect
     | "del" :: vs | "del1" :: vs =>
       match parseKey vs with
       | some k =>
